@@ -150,6 +150,13 @@ def audit_axioms(module: str, theorems: List[str]) -> Tuple[Dict[str, List[str]]
 
 
 # --------------------------------------------------------------------- evidence / verdict
+class StopExploration(Exception):
+    """raised once enough violations have been written (a failing input has been found)"""
+
+
+MAX_REPLAYS = 3
+
+
 class Run:
     """Collects what one check run covered and writes evidence/<id>.json."""
 
@@ -209,6 +216,8 @@ class Run:
         if suffix:
             line += " " + suffix
         print(line, flush=True)
+        if len(self.violations) >= MAX_REPLAYS:
+            raise StopExploration()
 
     def known_finding(self, what: str) -> None:
         self.known.append(what)
